@@ -121,6 +121,7 @@ func StepTotal() {
 				verifrt.Assert(loc.Line >= e.l0 && loc.Line <= e.l0+terminators(e.in, e.p), "C01.error-line-inside")
 				verifrt.Assert(loc.Column >= 1 && loc.Column <= (e.r0-e.ls0)+(e.n-e.p)+1, "C01.error-column-inside")
 				verifrt.Assert(loc.Line == tok.Pos.Line && loc.Column == tok.Pos.Column, "C04.error-loc-is-token-pos")
+				verifrt.Assert(loc.Line >= 1 && loc.Column >= 1, "C20.location-positive")
 			}
 			file, _ := gerr.Extensions["file"].(string)
 			verifrt.Assert(file == "s.graphql", "C20.file")
